@@ -39,6 +39,7 @@ type issuedCode struct {
 	method    string // the PKCE method the authorization request carried ("" = no challenge)
 	successes int
 	attempts  int
+	premature bool // issued by a callback that was called although the user never logged in
 }
 
 type codeWorld struct {
@@ -50,6 +51,7 @@ type codeWorld struct {
 	browsers []*world.Browser
 	n        int
 	faulty   bool
+	idTokens []string // ID tokens of earlier successful exchanges (usable as id_token_hint)
 }
 
 func (cw *codeWorld) startAuth(ch *kernel.Chooser, client string) string {
@@ -88,9 +90,19 @@ func (cw *codeWorld) startAuth(ch *kernel.Chooser, client string) string {
 		ap.Extra = url.Values{"request": {signRaw(payload, jose.RS256, key.Key, key.KeyID)}}
 		cw.o.Probe("authorization-via-request-object")
 	}
+	hinted := false
+	if len(cw.idTokens) > 0 && ch.Bool(1, 4) {
+		// the request names a user through the ID token of an earlier login (a hint, not an authentication)
+		if ap.Extra == nil {
+			ap.Extra = url.Values{}
+		}
+		ap.Extra.Set("id_token_hint", cw.idTokens[ch.Int(len(cw.idTokens))])
+		hinted = true
+		cw.o.Probe("authorization-with-id-token-hint")
+	}
 	resp, id := w.Authorize(b, ap)
 	if id == "" {
-		return fmt.Sprintf("start %s pkce=%s object=%v -> refused (%d)", client, p.method, p.viaObject, resp.Status)
+		return fmt.Sprintf("start %s pkce=%s object=%v hint=%v -> refused (%d)", client, p.method, p.viaObject, hinted, resp.Status)
 	}
 	p.id = id
 	cw.pending = append(cw.pending, p)
@@ -190,6 +202,32 @@ func (cw *codeWorld) deviate(ch *kernel.Chooser, ic *issuedCode, ndev int) (form
 		}
 	}
 	return form, creds, presentedClient, devs
+}
+
+// prematureCallback calls the callback endpoint for a request whose user has not logged in. A code that comes out
+// of it is kept (and redeemed later like any other): no exchange of it may ever succeed.
+func (cw *codeWorld) prematureCallback(ch *kernel.Chooser) string {
+	if len(cw.pending) == 0 {
+		return "premature callback: nothing pending"
+	}
+	p := cw.pending[ch.Int(len(cw.pending))]
+	r := p.browser.Get(cw.w.Issuer + "/authorize/callback?id=" + p.id)
+	cw.o.Probe("premature-callbacks")
+	desc := fmt.Sprintf("callback for %s before any login -> %d", p.id, statusOf(r))
+	if r.Err != nil || r.Status != http.StatusFound {
+		return desc
+	}
+	ar, err := world.DecodeAuthzResponse(r)
+	if err != nil || ar.Params.Get("code") == "" {
+		return desc + " (error response)"
+	}
+	snap := cw.w.Store.AuthReqSnapshot(p.id)
+	if snap == nil {
+		return desc + " (request vanished)"
+	}
+	cw.codes = append(cw.codes, &issuedCode{code: ar.Params.Get("code"), ar: snap, verifier: p.verifier, method: p.method, premature: true})
+	cw.o.Probe("code-from-premature-callback")
+	return desc + " CODE " + short(ar.Params.Get("code"))
 }
 
 // redeem sends one code exchange with a chosen set of deviations and checks the answer.
@@ -299,6 +337,12 @@ func (cw *codeWorld) evalRedeem(step int, desc string, ic *issuedCode, form url.
 	}
 	if hadSuccess {
 		viol("replay", "code yielded tokens again after a successful exchange")
+	}
+	if ic.premature || !ic.ar.IsDone {
+		viol("incomplete-request", "the code was issued for an authorization request the user never completed (subject %q, done=%v)", ic.ar.Subject, ic.ar.IsDone)
+	}
+	if tr.IDToken != "" {
+		cw.idTokens = append(cw.idTokens, tr.IDToken)
 	}
 	// issued tokens carry subject, client, scopes and nonce of the request
 	if tr.IDToken != "" {
@@ -440,7 +484,9 @@ func RunC04(t *testing.T, spec kernel.Spec) *kernel.Outcome {
 		n := 30 + tape.Sub("cfg").Int(40)
 		clients := w.SortedClients()
 		steps(o, tape, n, func(i int, ch *kernel.Chooser) string {
-			switch x := ch.Int(11); {
+			switch x := ch.Int(12); {
+			case x == 11:
+				return cw.prematureCallback(ch)
 			case x < 3:
 				return cw.startAuth(ch, clients[ch.Int(len(clients))])
 			case x < 6:
